@@ -152,6 +152,7 @@ package roundrobin
 //@   ensures balancer_first: calls(rb.next.UpsertServer) >= 1 && callarg(rb.next.UpsertServer, 0, 0) == u
 //@   ensures failed_add_rolled_back: result != nil && callres(rb.next.UpsertServer, 0, 0) == nil ==> calls(rb.next.RemoveServer) == 1 && callarg(rb.next.RemoveServer, 0, 0) == u
 //@   ensures success_keeps_member: result == nil ==> calls(rb.next.RemoveServer) == 0 && callres(rb.next.UpsertServer, 0, 0) == nil
+//@   ensures refused_by_the_balancer_removes_nothing: callres(rb.next.UpsertServer, 0, 0) != nil ==> calls(rb.next.RemoveServer) == 0 && result != nil
 
 //@ func (*Rebalancer).Servers
 //@   props C02 C11
@@ -315,6 +316,13 @@ package roundrobin
 //@   loop 1 invariant -1 <= rangeindex && rangeindex < len(rb.servers) && rbPoolOK(rb)
 //@   loop 1 invariant rb.timer == old(rb.timer) && len(rb.servers) == old(len(rb.servers)) && (forall i int :: 0 <= i && i < len(rb.servers) ==> rb.servers[i] == old(rb.servers[i]) && rb.servers[i].curWeight == old(rb.servers[i].curWeight) && rb.servers[i].origWeight == old(rb.servers[i].origWeight))
 
+// A meter's rating is a function of the meter and of the time it is asked (assumed for the Meter interface; the default
+// meter reads its ratio counter). The ratings that are split are exactly those the meters returned.
+//@ spec mrating(m Meter, t int) real
+//@ iface roundrobin.Meter.Rating
+//@   params self
+//@   modifies nothing
+//@   ensures rating_of_the_meter_now: result == mrating(self, lastclock)
 //@ func (*Rebalancer).markServers
 //@   props C10
 //@   holds rb.mtx
@@ -322,8 +330,10 @@ package roundrobin
 //@   modifies external, rbServer.good, elems(rb.ratings)
 //@   ensures records_untouched: rb.timer == old(rb.timer) && len(rb.servers) == old(len(rb.servers)) && (forall i int :: 0 <= i && i < len(rb.servers) ==> rb.servers[i] == old(rb.servers[i]) && rb.servers[i].curWeight == old(rb.servers[i].curWeight) && rb.servers[i].origWeight == old(rb.servers[i].origWeight))
 //@   ensures marks_follow_the_split: forall i int :: 0 <= i && i < len(rb.servers) ==> (rb.servers[i].good <==> in(rb.ratings[i], callres(SplitFloat64, 0, 0)))
+//@   ensures ratings_are_the_meters_own: forall j int :: 0 <= j && j < len(rb.servers) ==> rb.ratings[j] == mrating(rb.servers[j].meter, lastclock)
 //@   ensures differing_quality_iff_both_classes: result <==> (len(callres(SplitFloat64, 0, 0)) != 0 && len(callres(SplitFloat64, 0, 1)) != 0)
 //@   loop 1 invariant -1 <= rangeindex && rangeindex < len(rb.servers) && rbPoolOK(rb) && len(rb.ratings) == len(rb.servers)
+//@   loop 1 invariant ratings_as_returned: forall j int :: 0 <= j && j <= rangeindex ==> rb.ratings[j] == mrating(rb.servers[j].meter, lastclock)
 //@   loop 1 invariant timer_kept: rb.timer == old(rb.timer)
 //@   loop 1 invariant len_kept: len(rb.servers) == old(len(rb.servers))
 //@   loop 1 invariant elems_kept: forall i int :: 0 <= i && i < len(rb.servers) ==> rb.servers[i] == old(rb.servers[i])
